@@ -426,6 +426,12 @@ func (fr *Frame) intrinsic(in ssa.CallInstruction, fn *ssa.Function, full string
 		return Val{K: VIface, Fs: []Val{vInt(ex.typeTag(types.Universe.Lookup("error").Type())), vInt(ref)}}, true
 	case full == "sort.Sort":
 		return fr.sortIntrinsic(in, c, args), true
+	case full == "(time.Time).Sub":
+		f := ex.sc.DeclareFun("time_sub", []Sort{SInt, SInt, SInt, SInt, SInt, SInt}, SInt)
+		a, b := flatten(args[0]), flatten(args[1])
+		r := ex.sc.Define("time.sub", SInt, mkApp(f, append(a, b...)...))
+		fr.assume(mkAnd(mkApp("<=", intLit(new(bigInt).Neg(two63)), r), mkApp("<", r, intLit(two63))))
+		return vInt(r), true
 	case full == "time.Now":
 		ex.abstr["time.Now: unconstrained clock value"] = true
 		v, facts := ex.freshVal(fr.st, resultType(c), "now")
